@@ -17,6 +17,7 @@ def pools(ctx):
     n_rand = 1500 if ctx.tier == "quick" else 20000
     deep = [vlib.rand_shape(ctx.rng, 4) for _ in range(n_rand)]
     rel = [(s, vlib.mutate_shape(ctx.rng, s)) for s in deep] + vlib.structured_pairs(stride=1 if ctx.tier != 'quick' else 3)
+    rel += [(vlib.parse_sh(a), vlib.parse_sh(b)) for a, b in vlib.scale_shape_pairs()]         # scale / rare-feature stream
     return l1, deep, rel
 
 def run(ctx):
